@@ -81,9 +81,12 @@ class Adversary(InstructionGenerator):
             elif k == "DispatchTrip":
                 i = DispatchTripInstruction(v.id, pick(requests, "r_nope", lambda r: sim.requests[r].geoid))
             elif k == "DispatchStation":
-                i = DispatchStationInstruction(v.id, pick(stations, "s_nope"), self._plug(rng, plugs))
+                # now and then the station the vehicle is standing at ("already there"), mostly with a plug type it has
+                s_ = pick(stations, "s_nope", (lambda s: sim.stations[s].geoid) if rng.random() < 0.4 else None)
+                i = DispatchStationInstruction(v.id, s_, self._plug_of(rng, plugs, sim.stations.get(s_)))
             elif k == "ChargeStation":
-                i = ChargeStationInstruction(v.id, pick(stations, "s_nope", lambda s: sim.stations[s].geoid), self._plug(rng, plugs))
+                s_ = pick(stations, "s_nope", lambda s: sim.stations[s].geoid)
+                i = ChargeStationInstruction(v.id, s_, self._plug_of(rng, plugs, sim.stations.get(s_)))
             elif k == "DispatchBase":
                 i = DispatchBaseInstruction(v.id, pick(bases, "b_nope"))
             elif k == "ReserveBase":
@@ -104,6 +107,11 @@ class Adversary(InstructionGenerator):
 
             self.emit({"ev": "gen", "name": self.label, "instrs": [project_instruction(i) for i in out]})
         return self, tuple(out)
+
+    def _plug_of(self, rng, plugs, station):
+        if station is not None and rng.random() < 0.6:
+            return rng.choice(sorted(station.state.keys()))
+        return self._plug(rng, plugs)
 
     def _plug(self, rng, plugs):
         if rng.random() < self.p_bogus:
